@@ -10,7 +10,8 @@ from vlib import Rng
 
 BOUNDARY = ["0", "1", "len-1", "len", "len+1", "2^31", "2^32-1"]
 SAMPLES = ["test.dmp", "linux-mini.dmp", "simple-crashpad.dmp", "invalid-parameter.dmp", "pipeline-inlines-macos-segv.dmp"]
-MODEL_FIELDS = ["R", "SI", "TL", "ML", "UM", "MEM", "M64", "MI", "TI", "TN", "HD", "EX", "EXP", "EXC"]
+MODEL_FIELDS = ["R", "SI", "TL", "ML", "UM", "MEM", "M64", "MI", "TI", "TN", "HD", "EX", "EXP", "EXC",
+                "TLP", "MS", "LC", "LS", "LR", "LE", "LL", "MA"]
 # tighter than the brief's max(1 MiB, 64*len^2): the largest single request is LINEAR in the input
 PK_FLOOR = 64 * 1024
 PK_PER_BYTE = 16
@@ -533,6 +534,60 @@ class Gen:
             d.stream(ST["mac_boot"], d.u32(ST["mac_boot"]) + d.u64(rng.choice([k, d.utf16("-v"), 0, len(d.buf), (1 << 64) - 1, 1 << 32])))
             self.dump("crashpad_mac", d.finish())
 
+    # ------------------------------------------------------------- round 2: products for the newly modelled readers
+    def round2(self, nrand):
+        rng = self.rng
+        masks = [0, 1, 2, 3, 1 << 39, 1 << 62, 1 << 63, (1 << 63) | 1, (1 << 64) - 1, (1 << 64) - 2, 0x8000000080000001, 0x5555555555555555]
+        for be in (False, True):
+            # misc info: every struct size boundary x xstate mask
+            for size in (0, 23, 24, 43, 44, 231, 232, 831, 832, 1363, 1364, 1365, 2000):
+                for mask in (masks if size >= 1364 else masks[:2]):
+                    d = Dump(be, ndir=2)
+                    body = bytearray((7 * i + 3) & 0xff for i in range(size))
+                    if size >= 8:
+                        body[0:8] = d.u32(size, 0xffffffff)
+                    if size >= 848:
+                        body[832:848] = d.u32(528, 0x340) + d.u64(mask)
+                    d.stream(ST["system_info"], d.sysinfo(9))
+                    d.stream(ST["misc"], bytes(body))
+                    self.dump("misc_xstate_product", d.finish())
+            # thread contexts: cpu kind x flag validity x context size x number of threads
+            for cpu in CPUS:
+                arch, sz = CPUS[cpu][0], CPUS[cpu][1]
+                for flags in (None, 0, 0xffffffff, CPUS[cpu][4] | 0x10000000 if cpu != "sparc" else 0x10010000):
+                    for csize in (sz, sz - 1, sz + 8):
+                        d = Dump(be, ndir=3)
+                        cb = d.context(cpu, flags=flags, size=max(csize, 0))
+                        cx = d.add(cb)
+                        good = d.add(d.context(cpu))
+                        st = d.add(bytes(16))
+                        d.stream(ST["system_info"], d.sysinfo(arch))
+                        ths = [d.thread(1, (0x7000, 16, st), (len(cb), cx)), d.thread(2, (0, 0, 0), (sz, good)),
+                               d.thread(3, (0x8000, 16, 0), (0, 0)), d.thread(4, (0x9000, 0xffffffff, st), (sz, 0xfffffff0))]
+                        d.stream(ST["thread_list"], d.list(ths))
+                        d.stream(ST["memory_list"], d.list([d.u64(0x7000) + d.u32(16, st)]))
+                        self.dump("thread_context_product", d.finish())
+            # memory regions at the edges of the address space / shorter than the value read
+            for base in (0, 1, 7, 0x7000, (1 << 64) - 16, (1 << 64) - 8, (1 << 64) - 1):
+                for size in (1, 2, 7, 8, 9, 16):
+                    d = Dump(be, ndir=1)
+                    data = d.add(bytes(range(16)))
+                    d.stream(ST["memory_list"], d.list([d.u64(base) + d.u32(size, data), d.u64(base + 1) + d.u32(size, data + 1)]))
+                    self.dump("memory_read_product", d.finish())
+        # text streams: separators, quotes and every ASCII whitespace in every position
+        atoms = [b"", b"k", b" k ", b"\tk\x0c", b"\"k\"", b"\"", b"\"\"", b" \"k\" ", b"\"k", b"k\"", b"\x0bk", b"k\rv", b"\xc3\xa9", b"  "]
+        seps = {"linux_cpu": b":", "linux_status": b":", "linux_lsb": b"=", "linux_environ": b"=", "moz_limits": b":"}
+        for _ in range(nrand):
+            d = Dump(rng.chance(1, 3), ndir=5)
+            for key, sep in seps.items():
+                lines = []
+                for _ in range(rng.range(0, 5)):
+                    parts = [rng.choice(atoms) for _ in range(rng.range(1, 3))]
+                    lines.append(rng.choice([sep, b":", b"=", b"", sep + sep]).join(parts))
+                text = rng.choice([b"\n", b"\n", b"\r\n", b"\n\n", b"\0"]).join(lines) + rng.choice([b"", b"\n", b"\0"])
+                d.stream(ST[key], text)
+            self.dump("text_kv_product", d.finish())
+
     # ------------------------------------------------------------- base dumps from minidump-synth and /repo/testdata
     def synth_and_samples(self, per_synth, per_sample):
         rng = self.rng
@@ -631,6 +686,7 @@ class C01(PropBase):
         g.exceptions(400 if q else 6000)
         g.memory64(500 if q else 6000)
         g.exercised(500 if q else 6000)
+        g.round2(400 if q else 5000)
         g.synth_and_samples(700 if q else 8000, 160 if q else 2500)
         g.random_bytes(200 if q else 3000)
         return g.cases, g.dist, False
@@ -666,9 +722,7 @@ class C01(PropBase):
             v = f[k]
             if v.startswith("!P("):
                 v = "!P"
-            elif k == "TL" and v.startswith("ok:"):
-                v = "ok:" + v.split(":")[1]
-            elif k in ("EXP", "EXC") and v == "-":
+            elif k in ("EXP", "EXC", "TLP") and v == "-":
                 v = "ok"
             out.append("%s=%s" % (k, v))
         return ";".join(out)
